@@ -7,8 +7,11 @@
 #ifndef STEP
 #define STEP 0
 #endif
-#ifndef MAXK
-#define MAXK 40
+#ifndef KBASE
+#define KBASE 0
+#endif
+#ifndef NALLOC
+#define NALLOC 0
 #endif
 
 const cJSON *credentials_ok(const char *u, char *p) { (void)u; (void)p; return 0; }
@@ -61,23 +64,33 @@ void harness_alloc_failure(void)
 #endif
 	scn_build_end();
 	reset_log();
-	long k = nd_range(0, MAXK);
+	/* the failing allocation attempt is fixed per obligation (the runner enumerates 0..N-1 for each handler, N = number
+	   of allocation attempts of the fault-free request): with a symbolic index every allocation site forks and the
+	   merged heap defeats constant propagation (no verdict in 400 s even for a window of 4). Data stays symbolic. */
+	long k = KBASE;
 	verif_alloc_calls = 0; verif_alloc_failed = 0;
 	verif_fail_at = k;
 	int r = dispatch(actor, req);
 	verif_fail_at = -1;
 	(void)r;
+#ifdef VERIF_REPLAY
+	printf("ALLOC-CALLS step=%d %ld\n", STEP, verif_alloc_calls);
+#endif
 	int answers = 0; for (int i = 0; i < nlog; i++) if (LOG[i].kind == K_RESPONSE && LOG[i].to == actor && LOG[i].id_int == 7) answers++;
 	CHECK(answers <= 1, "C15.at_most_one_response_under_allocation_failure");
 	struct sent *resp = 0; for (int i = 0; i < nlog; i++) if (LOG[i].kind == K_RESPONSE && LOG[i].to == actor) resp = &LOG[i];
 	if (resp) CHECK(resp->has_result != resp->is_error, "C15.response_still_has_result_xor_error");
-	if (!verif_alloc_failed) { CHECK(answers == 1 && resp && resp->has_result, "C15.request_succeeds_without_failure"); REACH("no_failure"); }
-	else REACH("failure_injected");
+#if STEP == 5
+	if (!verif_alloc_failed) CHECK(answers == 0 && count_kind(&A, K_ROUTED) == 1, "C15.request_succeeds_without_failure");
+#else
+	if (!verif_alloc_failed) CHECK(answers == 1 && resp && resp->has_result, "C15.request_succeeds_without_failure");
+#endif
+	CHECK(verif_alloc_failed == (KBASE < NALLOC), "C15.failure_injected_as_planned");
 	struct element *e = element_table_get("a");
 #if STEP == 0
-	if (!resp || resp->is_error) CHECK(e == 0, "C15.refused_add_creates_nothing");
+	if (resp && resp->is_error) CHECK(e == 0, "C15.add_answered_with_error_created_nothing");
 #elif STEP == 2
-	if (!resp || resp->is_error) CHECK(e && e->value && e->value->valueint == 5, "C15.refused_change_changes_nothing");
+	if (resp && resp->is_error) CHECK(e && e->value && e->value->valueint == 5, "C15.change_answered_with_error_changed_nothing");
 	if (e) CHECK(e->value != 0, "C15.state_keeps_a_value");
 #endif
 	/* everything goes away with the peers */
